@@ -117,7 +117,7 @@ def compare_tests(bi):
         s = e["subject"]
         if s[0] == "binop" and s[1] in CMP_BIN:
             out.append((e, CMP_BIN[s[1]], s[2], s[3]))
-        elif s[0] == "call" and s[1][0] in ("PartialEq", "PartialOrd", "usize", "Ord") and s[1][1] in CMP_CALL and len(s[2]) == 2:
+        elif s[0] == "call" and s[1][0] in ("PartialEq", "PartialOrd", "usize", "Ord", "ref") and s[1][1] in CMP_CALL and len(s[2]) == 2:
             out.append((e, CMP_CALL[s[1][1]], s[2][0], s[2][1]))
         elif s[0] == "phi":
             # `let all_done = a == b; if all_done {` where the local has one live comparison def
